@@ -280,7 +280,45 @@ def history_setter(acc, t1, t2):
         acc.held("history:ast-setter", S.digest([t1, t2]))
 
 
+def known_answers(acc, desc):
+    """Constraints whose classification is known by construction, at sizes no enumeration reaches:
+    (A1|..|An) => (B1&..&Bm) and (A1|..|An) excludes (B1|..|Bm) are conjunctions of n*m requires / excludes
+    constraints (pseudo-complex); a disjunction of three or more features is one clause that is no simple
+    constraint (strict-complex)."""
+    from flamapy.core.models.ast import AST
+    from flamapy.metamodels.fm_metamodel.models import Constraint
+
+    def chain(op, xs):
+        t = xs[0]
+        for x in xs[1:]:
+            t = [op, t, x]
+        return t
+    cases_ = []
+    for n, m in ((2, 2), (3, 5), (8, 8), (20, 20), (33, 32), (40, 30)):
+        a, b = [f"A{q}" for q in range(n)], [f"B{q}" for q in range(m)]
+        cases_.append((f"pseudo:{n}x{m}:or-implies-and", ["IMPLIES", chain("OR", a), chain("AND", b)], True))
+        cases_.append((f"pseudo:{n}x{m}:or-excludes-or", ["EXCLUDES", chain("OR", a), chain("OR", b)], True))
+        cases_.append((f"strict:{n + m}:wide-clause", chain("OR", a + b) if n + m >= 3 else ["OR", ["OR", "A0", "B0"], "C0"], False))
+    for k, (name, t, pseudo) in enumerate(cases_):
+        if k % desc["nshards"] != desc["shard"]:
+            continue
+        payload = {"cls": "known-answer", "ast": t if len(S.ast_names(t)) <= 20 else None, "name": name}
+        try:
+            c = Constraint("K", AST(S.build_ast(t)))
+            got = (c.is_complex_constraint(), c.is_pseudocomplex_constraint(), c.is_strictcomplex_constraint())
+        except Exception as e:  # noqa: BLE001
+            acc.fail("known-answer", "no-exception", W, [], f"raises:{type(e).__name__}", f"{name}: {e}"[:200], payload)
+            continue
+        want = (True, pseudo, not pseudo)
+        if got != want:
+            acc.fail("known-answer", "classification-by-construction", W, [], "wrong-kind",
+                     f"{name}: (complex, pseudo, strict) = {got}, by construction {want}", payload, S.digest(name))
+        else:
+            acc.held("known-answer", S.digest(name))
+
+
 def run_shard(desc, acc):
+    known_answers(acc, desc)
     prev = None
     for k, (cls, t) in enumerate(cases(desc)):
         judge(acc, cls, t, {"cls": cls, "ast": t})
@@ -292,6 +330,9 @@ def run_shard(desc, acc):
 
 
 def replay(payload, acc):
+    if payload.get("cls") == "known-answer":
+        known_answers(acc, {"nshards": 1, "shard": 0})
+        return
     if payload.get("cls") == "history:ast-setter":
         history_setter(acc, payload["before"], payload["ast"])
         return
